@@ -26,8 +26,13 @@ def rp_check(pid, tier, seed, replay=None):
         r = rp_part(pid, tier, seed, wd, (pid + ".", "C09."))
         if r.get("race"):
             return 1
-        write_evidence(pid, tier, seed, "model_checking", r["coverage"], time.time() - t0, r["new"], assumptions=r["assumptions"])
-        return 1 if r["new"] else 0
+        f = flow_part(pid, tier, seed, wd, (pid + ".", "C09."))
+        cov = r["coverage"]
+        cov["closed_loop"] = f["coverage"]
+        for k in ("states", "transitions", "traces_validated_against_impl", "evaluations", "distinct_nontrivial"):
+            cov[k] += f["coverage"][k]
+        write_evidence(pid, tier, seed, "model_checking", cov, time.time() - t0, r["new"] + f["new"], assumptions=r["assumptions"] + f["assumptions"])
+        return 1 if (r["new"] + f["new"]) else 0
     finally:
         cleanup(wd)
 
@@ -87,6 +92,63 @@ def rp_part(pid, tier, seed, wd, prefixes):
                          "concurrent logins through one handler run under the race detector; each response is judged against its own cookies"])
         log(f"[{pid}] {len(behs)} TLC behaviours + {sz['rand']} random histories + concurrent logins (-race): {len(trace)} events validated by RPTrace; {len(viols)} rule failures with prefix {list(prefixes)} ({new} new, {known} known)")
         return dict(new=new, known=known, coverage=coverage, assumptions=assumptions)
+
+
+FLOW_SIZES = {"quick": dict(walks=100, rand=120, depth=40), "thorough": dict(walks=2500, rand=3000, depth=60)}
+
+
+def flow_part(pid, tier, seed, wd, prefixes):
+    """The closed loop RP <-> OP (FlowDesign -> FlowMBT -> real relying parties + real provider -> FlowTrace); rule failures filtered by prefix."""
+    sz = FLOW_SIZES[tier]
+    if not os.path.exists(os.path.join(wd, "world.json")):
+        tlc(wd, "OPEmitWorld.tla", cfg="OPEmitWorld.cfg", workers=1, timeout=120)
+    d = tlc(wd, "FlowDesign.tla", cfg=f"FlowDesign_{tier}.cfg", timeout=3600)
+    log(f"[{pid}] design FlowDesign_{tier}.cfg: {d['distinct']} distinct / {d['generated']} generated states, depth {d['depth']}: NoViolation holds")
+    m = tlc(wd, "FlowMBT.tla", cfg="FlowMBT.cfg", workers=1, simulate=f"num={sz['walks']}", depth=18, seed=seed, timeout=1800)
+    behs = parse_behaviours(m["out"])
+    if not behs:
+        raise Inconclusive("no behaviours from TLC (Flow):\n" + m["out"][-1500:])
+    with open(os.path.join(wd, "fb.ndjson"), "w") as f:
+        for i, b in enumerate(behs):
+            f.write(json.dumps(dict(id=f"mbt-{i}", cfg=b["cfg"], steps=b["steps"])) + "\n")
+    binp = go_build(wd)
+    rc, out = run([binp, "flow-replay", "-world", "world.json", "-in", "fb.ndjson", "-out", "flowtrace.ndjson", "-n", str(sz["rand"]), "-depth", str(sz["depth"]), "-seed", str(seed)], wd, timeout=3600)
+    if rc != 0 or "REPLAYED" not in out:
+        raise Inconclusive("flow-replay failed:\n" + out[-3000:])
+    import shutil
+    shutil.copy(os.path.join(wd, "flowtrace.ndjson"), os.path.join(wd, "trace.ndjson"))
+    vp = os.path.join(wd, "viol.ndjson")
+    if os.path.exists(vp):
+        os.remove(vp)
+    t = tlc(wd, "FlowTrace.tla", cfg="FlowTrace.cfg", workers=1, timeout=3600)
+    if not os.path.exists(vp):
+        raise Inconclusive("Flow monitor did not consume the whole trace:\n" + "\n".join(t["out"].splitlines()[-30:]))
+    rows = read_ndjson(vp)
+    lines, viols = rows[0]["lines"], [v for v in rows[1:] if v["rule"].startswith(tuple(prefixes))]
+    trace = read_ndjson(os.path.join(wd, "flowtrace.ndjson"))
+    for v in viols:
+        e = trace[v["line"] - 1]
+        v["run"], v["op"], v["args"], v["observed"] = e.get("run"), e["op"], e["args"], e["out"]
+    cov = collections.Counter((e["op"], e["out"].get("class")) for e in trace)
+    for need in (("RPCallback", "tokens"), ("RPCallback", "unauthorized"), ("Userinfo", "claims"), ("Userinfo", "error"), ("Refresh", "tokens"), ("Revoke", "ok"),
+                 ("EndSession", "redirect"), ("Introspect", "active"), ("DevicePoll", "tokens"), ("DevicePoll", "pending")):
+        if not cov[need]:
+            raise Inconclusive(f"vacuous flow run: no event {need}; have {sorted(cov.items(), key=str)}")
+    new, known = report(pid, viols, lambda v: f"{v['rule']}:{v['op']}:{v['args'].get('rp', '')}",
+                        lambda v: dict(rule=v["rule"], line=v["line"], run=v["run"], op=v["op"], args=v["args"], observed=v["observed"]),
+                        wd, ["flowtrace.ndjson", "viol.ndjson", "fb.ndjson", "world.json"], seed, tier)
+    runs = sum(1 for e in trace if e["op"] == "Reset")
+    coverage = dict(states=d["distinct"], transitions=d["generated"], traces_validated_against_impl=runs,
+                    samples=[dict(op=e["op"], args=e["args"], out=e["out"]) for e in trace[1:10]], evaluations=len(trace),
+                    distinct_nontrivial=len({json.dumps([e["op"], e["args"], e["out"].get("class")], sort_keys=True) for e in trace}),
+                    rule="one trace = one provider (router P or L) with four relying parties of the library and two browsers; events = steps of login attempts, session operations, device flows",
+                    design=dict(cfg=f"FlowDesign_{tier}.cfg", states=d["distinct"], transitions=d["generated"], depth=d["depth"]),
+                    tlc_behaviours_replayed=len(behs), random_histories=sz["rand"], monitor_lines=lines,
+                    event_coverage={f"{k[0]}:{k[1]}": v for k, v in sorted(cov.items(), key=str)}, known_findings_seen=known, exhaustive=False)
+    log(f"[{pid}] closed loop RP<->OP: {len(behs)} TLC behaviours + {sz['rand']} random histories, {len(trace)} events validated by FlowTrace; {len(viols)} rule failures with prefix {list(prefixes)} ({new} new, {known} known)")
+    return dict(new=new, known=known, coverage=coverage,
+                assumptions=["closed loop (spec/Flow.tla): rp.NewRelyingPartyOIDC relying parties for cw / cx / cj / cp (secret basic, secret post, private_key_jwt, public + PKCE) and "
+                             "rs resource servers talk in-process to the real provider on either router over the harness storage; users log in at the storage"])
 
 
 def rp_replay(pid, wd, path):
